@@ -256,7 +256,7 @@ func (r *run) c16router(budget int) {
 		for _, d := range ds {
 			hexes = append(hexes, ktext.Hex(d))
 			var svc knxnet.Service
-			if _, err := knxnet.Unpack(append([]byte(nil), d...), &svc); err == nil {
+			if _, err := oracleUnpack(append([]byte(nil), d...), &svc); err == nil {
 				want = append(want, ktext.Join(ktext.Service(svc)))
 			}
 		}
